@@ -92,7 +92,8 @@ func checkC09(c *Ctx) {
 		"K2 no decoder copies the remainder of its input (ReadAll / CopyN(Len())) inside a loop: nested option lists are parsed from one copy per level",
 		"K3 no allocation inside a decode loop is sized by the length of a loop-carried accumulator (repeated-option reassembly appends only the chunk just consumed); no accumulator is grown through a capacity-clipped alias of itself",
 		"K4 no encoder invokes ToBytes twice on the same sub-value along a path (re-encoding is linear in the nesting depth, not exponential)",
-		"K7 no function on a recursion cycle of the decode closure hands the same input bytes to that cycle twice along one path (decoding is linear in the nesting depth)")
+		"K7 no function on a recursion cycle of the decode closure hands the same input bytes to that cycle twice along one path (decoding is linear in the nesting depth)",
+		"K8 no decoder on a recursion cycle keeps a copy of the bytes it hands to the recursion (retained size stays linear in the input, not input × depth); K3 also follows calls made inside decode loops: the callee does not reallocate, sized by its current length, the collection it extends")
 	r.NotDecided = append(r.NotDecided, "the numeric statement itself (bytes allocated ≤ k·n + n·depth, size of the decoded value): runtime quantities of the allocator, append growth and string concatenation that no static argument in reach bounds; the clauses above are necessary conditions, not a proof of the bound")
 	e, err := newE4(c, "C09-K1")
 	if err != nil {
@@ -102,7 +103,7 @@ func checkC09(c *Ctx) {
 	funcs := decodeClosure(c)
 	r.Count("C09-decode-closure", len(funcs))
 	r.Expect("C09-decode-closure", 80)
-	nJumps, nReadAll, nLoops := 0, 0, 0
+	nJumps, nReadAll, nLoops, nLoopCalls := 0, 0, 0, 0
 	for _, f := range funcs {
 		if inUio(f) {
 			continue
@@ -112,6 +113,7 @@ func checkC09(c *Ctx) {
 			loop := sccOf(hdr)
 			nJumps += c09Cursor(c, e, f, hdr, loop)
 			c09Alloc(c, f, hdr, loop)
+			nLoopCalls += c09AllocCallee(c, f, loop)
 		}
 		// K2
 		allInstrs(f, func(in ssa.Instruction) {
@@ -251,6 +253,9 @@ func checkC09(c *Ctx) {
 		})
 	}
 	c09DoubleDecode(c, funcs)
+	c09Retention(c, funcs)
+	r.Count("C09-K3-calls-in-decode-loops", nLoopCalls)
+	r.Expect("C09-K3-calls-in-decode-loops", 3)
 	r.Count("C09-K5-make-sites", nMake)
 	r.Count("C09-K6-format-sites", nFmt)
 	r.Expect("C09-K6-format-sites", 10)
@@ -531,6 +536,82 @@ func c09Alloc(c *Ctx, f *ssa.Function, hdr *ssa.BasicBlock, loop map[*ssa.BasicB
 				"a buffer sized by "+bad+" is allocated on every iteration: total allocation is quadratic in the number of iterations (e.g. one option code repeated thousands of times)")
 		}
 	}
+}
+
+// c09AllocCallee: K3 across a call — inside a decode loop, a call of a module function that grows a collection
+// through a pointer parameter (stores to *p) and allocates a buffer sized by len(*p) on each call: the total
+// allocation is quadratic in the number of iterations although each call looks like a plain "add".
+func c09AllocCallee(c *Ctx, f *ssa.Function, loop map[*ssa.BasicBlock]bool) int {
+	r := c.R
+	n := 0
+	lenOfParam := func(g *ssa.Function, v ssa.Value) *ssa.Parameter {
+		var find func(v ssa.Value, d int) *ssa.Parameter
+		find = func(v ssa.Value, d int) *ssa.Parameter {
+			if d > 6 || v == nil {
+				return nil
+			}
+			switch x := v.(type) {
+			case *ssa.BinOp:
+				if p := find(x.X, d+1); p != nil {
+					return p
+				}
+				return find(x.Y, d+1)
+			case *ssa.Convert:
+				return find(x.X, d+1)
+			case *ssa.Call:
+				if isBuiltinCall(x.Common(), "len") || isBuiltinCall(x.Common(), "cap") {
+					a := x.Call.Args[0]
+					if u, ok := a.(*ssa.UnOp); ok && u.Op == token.MUL {
+						if p, ok := u.X.(*ssa.Parameter); ok {
+							return p
+						}
+					}
+				}
+			}
+			return nil
+		}
+		return find(v, 0)
+	}
+	for b := range loop {
+		for _, in := range b.Instrs {
+			cl, ok := in.(*ssa.Call)
+			if !ok {
+				continue
+			}
+			for _, g := range c.P.Callees(cl) {
+				if g == nil || g.Blocks == nil || !inModule(g) || g == f {
+					continue
+				}
+				n++
+				allInstrs(g, func(i2 ssa.Instruction) {
+					mk, ok := i2.(*ssa.MakeSlice)
+					if !ok {
+						return
+					}
+					p := lenOfParam(g, mk.Len)
+					if p == nil {
+						p = lenOfParam(g, mk.Cap)
+					}
+					if p == nil {
+						return
+					}
+					// the same parameter is assigned through: the collection grows by this call
+					grows := false
+					for _, ref := range *p.Referrers() {
+						if st, ok := ref.(*ssa.Store); ok && st.Addr == ssa.Value(p) {
+							grows = true
+						}
+					}
+					if !grows {
+						return
+					}
+					r.Violation("C09-K3", shortName(f)+": calls "+shortName(g)+" in a decode loop, which reallocates the collection it extends ("+shortDesc(mk.Len, 3)+")", c.P.ipos(cl),
+						shortName(g)+" allocates a buffer sized by the current length of the collection it appends to ("+c.P.ipos(mk)+") on every call: decoding k elements allocates about k²/2 element slots")
+				})
+			}
+		}
+	}
+	return n
 }
 
 func mkDependsOnPhi(v ssa.Value, hdr *ssa.BasicBlock, d int) bool {
@@ -968,4 +1049,120 @@ func c09DoubleDecode(c *Ctx, funcs []*ssa.Function) {
 	if nPairs == 0 {
 		r.OK("C09-K7", "no input handed to the decoder recursion twice on one path", "-", "pairs of recursive call sites sharing a byte-slice argument", fmt.Sprintf("%d recursive call sites", nRec))
 	}
+}
+
+// c09Retention: K8 — "the decoded value is no larger than a fixed multiple of the input": a decoder on a recursion
+// cycle of the decode closure does not keep a copy of the bytes it also hands to the recursion (every nesting
+// level would retain its whole remaining payload: n·depth/2 bytes for depth nested relay messages).
+func c09Retention(c *Ctx, funcs []*ssa.Function) {
+	r := c.R
+	in := map[*ssa.Function]bool{}
+	for _, f := range funcs {
+		in[f] = true
+	}
+	n := 0
+	for _, f := range funcs {
+		if inUio(f) || !inModule(f) {
+			continue
+		}
+		// byte-slice values handed to a call that can re-enter f
+		allInstrs(f, func(x ssa.Instruction) {
+			ci, ok := x.(ssa.CallInstruction)
+			if !ok {
+				return
+			}
+			rec := false
+			for _, g := range c.P.Callees(ci) {
+				if in[g] && (g == f || reachesFunc(c, g, f, in)) {
+					rec = true
+				}
+			}
+			if !rec {
+				return
+			}
+			for _, a := range ci.Common().Args {
+				st, ok := a.Type().Underlying().(*types.Slice)
+				if !ok || !isByteElem(st) {
+					continue
+				}
+				n++
+				for _, ref := range *a.Referrers() {
+					cp, ok := ref.(*ssa.Call)
+					if !ok || ref == x {
+						continue
+					}
+					isCopy := false
+					var res ssa.Value
+					switch {
+					case isBuiltinCall(cp.Common(), "append") && len(cp.Call.Args) == 2 && cp.Call.Args[1] == a:
+						isCopy, res = true, cp
+					case isBuiltinCall(cp.Common(), "copy") && len(cp.Call.Args) == 2 && cp.Call.Args[1] == a:
+						isCopy, res = true, cp.Call.Args[0]
+					case isFuncCall(cp.Common(), "bytes", "Clone") || isFuncCall(cp.Common(), "slices", "Clone"):
+						isCopy, res = true, cp
+					}
+					if !isCopy || res == nil {
+						continue
+					}
+					// does the copy reach a field store?
+					stored := false
+					seen := map[ssa.Value]bool{}
+					var walk func(v ssa.Value, d int)
+					walk = func(v ssa.Value, d int) {
+						if seen[v] || d > 5 || v.Referrers() == nil {
+							return
+						}
+						seen[v] = true
+						for _, r2 := range *v.Referrers() {
+							switch u := r2.(type) {
+							case *ssa.Store:
+								if u.Val == v {
+									if _, isFA := u.Addr.(*ssa.FieldAddr); isFA {
+										stored = true
+									}
+								}
+							case *ssa.Slice, *ssa.ChangeType, *ssa.Convert, *ssa.Phi, *ssa.MakeInterface:
+								walk(r2.(ssa.Value), d+1)
+							}
+						}
+					}
+					walk(res, 0)
+					if stored {
+						r.Violation("C09-K8", shortName(f)+": keeps a copy of "+shortDesc(a, 3)+" and also decodes it recursively", c.P.ipos(cp),
+							"every nesting level retains a copy of its whole payload beside the decoded value: a chain of d nested messages of n bytes decodes to about n·d/2 retained bytes")
+					}
+				}
+			}
+		})
+	}
+	r.Count("C09-K8-recursive-byte-arguments", n)
+	r.Expect("C09-K8-recursive-byte-arguments", 5)
+	r.OK("C09-K8", "no decoder on a recursion cycle stores a copy of the bytes it hands to the recursion", "-", "copy/append/Clone of a recursively decoded argument reaching a field store", fmt.Sprintf("%d arguments scanned", n))
+}
+
+var reachMemo = map[*ssa.Function]map[*ssa.Function]bool{}
+
+// reachesFunc: g can reach f through calls inside the set
+func reachesFunc(c *Ctx, g, f *ssa.Function, in map[*ssa.Function]bool) bool {
+	m, ok := reachMemo[g]
+	if !ok {
+		m = map[*ssa.Function]bool{}
+		st := []*ssa.Function{g}
+		for len(st) > 0 {
+			h := st[len(st)-1]
+			st = st[:len(st)-1]
+			allInstrs(h, func(x ssa.Instruction) {
+				if ci, ok := x.(ssa.CallInstruction); ok {
+					for _, k := range c.P.Callees(ci) {
+						if in[k] && !m[k] {
+							m[k] = true
+							st = append(st, k)
+						}
+					}
+				}
+			})
+		}
+		reachMemo[g] = m
+	}
+	return m[f]
 }
